@@ -5,7 +5,7 @@
 (* in every state.  Also emits the histories as behaviours to replay into the real code. *)
 EXTENDS Naturals, Sequences, FiniteSets, TLC, Json
 
-CONSTANTS NF, MaxLen, Kinds, MaxHunks, MaxBody, Preamble, MaxConf, Buf, Fixes, ColorOnly, ReplayLen
+CONSTANTS NF, MaxLen, Kinds, MaxHunks, MaxBody, Preamble, MaxConf, Buf, Fixes, ColorOnly, Modes, ReplayLen
 
 VARIABLES hist, gs, s
 
@@ -24,7 +24,10 @@ Final == I!Finish(s).w
 
 \* C01 / C04 / C14 (order, once, own section): the rows of the complete run are the expected ones
 Cex(name) == PrintT(<<"CEX", ToJson([inv |-> name, h |-> hist])>>) /\ FALSE
-RowsOnceInOrder == O!SameRowsOpt(O!Expected(hist), Final) \/ Cex("RowsOnceInOrder")
+\* (word-diff mode: a hunk line has no marker column and no role; it is shown as it came - a raw row - once, in place)
+ExpectedM == LET e == O!Expected(hist) IN
+             IF "word-diff" \in Modes THEN [i \in DOMAIN e |-> IF e[i].t \in O!BodyC THEN O!Row("raw", e[i].k, <<>>) ELSE e[i]] ELSE e
+RowsOnceInOrder == O!SameRowsOpt(ExpectedM, Final) \/ Cex("RowsOnceInOrder")
 
 \* C15: every hunk line is highlighted in the language its own file's name selects
 LanguageByName == O!LanguageByName(hist, I!Finish(s).sy) \/ Cex("LanguageByName")
